@@ -168,6 +168,16 @@ def check(run):
         shutil.rmtree(root2, ignore_errors=True)
     except Broken as b:
         broken.append(b)
+    # generic instances in every syntactic position (position x feature matrix): typed source vs emitted Go
+    try:
+        import matrixgen
+        import semcheck
+
+        mw, mstats, _, _ = semcheck.run_semantic_check(run, "C07", 0, 0, with_corpus=False, extra_sources=matrixgen.sources(run, "c07", subset="generic"), tag="c07mx")
+        stats["matrix_programs"] = mstats
+        wits += mw
+    except Broken as b:
+        broken.append(b)
     # regression corpus: instance names must be unique (minimised failures run on every check)
     import glob as _glob
 
@@ -200,7 +210,8 @@ def check(run):
     run.cov["rule"] = (
         "pairs (P, P'): P uses %d generic functions/methods (unbounded, trait-bounded with 2 methods, generic calling generic at derived types, same-instance recursion, local closure over T, "
         "inherent methods of generic types) at concrete types built from int32/bool/string/struct/enum/tuples/Box/Opt/Two/Vec nested to depth 2; P' is P with every generic definition copied per instantiation and its type parameters substituted textually. "
-        "The Go emitted for P (Sem/GoSem.v) must behave like P' at the typed tree (Sem/Src.v); Mono of P must contain no TParam/TVar/TApp, unique names, and exactly the instances reachable from main under the names spec_name_for gives. "
+        "Additionally every generic cell of the position x feature matrix (generic enum/struct/function instances, also nested and as trait objects, in operands, branches, loop conditions and bodies, match arms, closure bodies, fields, "
+        "bodies of plain, generic and method functions) is compared typed source vs emitted Go. The Go emitted for P (Sem/GoSem.v) must behave like P' at the typed tree (Sem/Src.v); Mono of P must contain no TParam/TVar/TApp, unique names, and exactly the instances reachable from main under the names spec_name_for gives. "
         "distinct_nontrivial = agreeing pairs" % len(genericgen.make_items())
     )
     run.cov["correspondence"] = stats
